@@ -268,6 +268,8 @@ theorem Step.nodes_subBuilt (s : Step) (h : s.subSupported = true) :
   | debugInspect => exact nodes_elementwise _ _ rfl trivial
   | debugCount => exact nodes_elementwise _ _ rfl trivial
   | debugSample n => exact nodes_elementwise _ _ rfl trivial
+  | customOp n => exact nodes_elementwise _ _ rfl trivial
+  | mapSideMap => exact nodes_elementwise _ _ rfl trivial
   | join k rsrc rsteps => exact absurd h (by simp [Step.subSupported])
 
 theorem steps_nodes_subBuilt (steps : List Step) (h : steps.all Step.subSupported = true) :
